@@ -286,40 +286,7 @@ func runC12(c *core.Ctx) {
 		}
 	})
 
-	c.Clause("D5", func() {
-		ft := c.P.LookupType(models, "FieldType")
-		c.Need(ft != nil, "models.FieldType")
-		want := map[string]bool{"Float": true, "Integer": true, "Unsigned": true, "String": true, "Boolean": true}
-		n := 0
-		for _, name := range []string{models + ".NewPointFromBytes", models + ".(*point).unmarshalBinary"} {
-			f := c.Fn(name)
-			info := f.Info()
-			ast.Inspect(f.Body, func(nd ast.Node) bool {
-				sw, ok := nd.(*ast.SwitchStmt)
-				if !ok || sw.Tag == nil || !types.Identical(info.TypeOf(sw.Tag), ft) {
-					return true
-				}
-				n++
-				have := map[string]bool{}
-				for _, s := range sw.Body.List {
-					for _, k := range caseConsts(info, s.(*ast.CaseClause)) {
-						have[k.Name()] = true
-					}
-				}
-				var missing []string
-				for w := range want {
-					if !have[w] {
-						missing = append(missing, w)
-					}
-				}
-				sort.Strings(missing)
-				c.Check("binary-point-field-dispatch-exhaustive", f.Name+"/switch", c.P.Pos(sw.Pos()), len(missing) == 0,
-					fmt.Sprintf("fields of type %v are skipped when a binary point is validated / rebuilt: the point arrives without them", missing))
-				return true
-			})
-		}
-		c.Floor("field type dispatches of the binary point form", n, 2)
-	})
+	c.Clause("D5", func() { runBinaryPointDispatch(c) })
 
 	c.Clause("D7", func() {
 		// number tokens the scanner cannot validate itself are validated by the float parser: a float token in
@@ -677,5 +644,63 @@ func runTagKeyComparisons(c *core.Ctx) {
 	}
 	c.Floor("raw constant-byte searches recognised (matcher liveness)", raw, 3)
 	c.Check("no-raw-delimiter-search", "models/total", "", delim == 0, fmt.Sprintf("%d raw delimiter searches", delim))
+
+}
+
+// runBinaryPointDispatch: the binary point form handles and validates every field type (shared by C12 and C15).
+func runBinaryPointDispatch(c *core.Ctx) {
+	const models = "models"
+	ft := c.P.LookupType(models, "FieldType")
+	c.Need(ft != nil, "models.FieldType")
+	want := map[string]bool{"Float": true, "Integer": true, "Unsigned": true, "String": true, "Boolean": true}
+	n := 0
+	for _, name := range []string{models + ".NewPointFromBytes", models + ".(*point).unmarshalBinary"} {
+		f := c.Fn(name)
+		info := f.Info()
+		ast.Inspect(f.Body, func(nd ast.Node) bool {
+			sw, ok := nd.(*ast.SwitchStmt)
+			if !ok || sw.Tag == nil || !types.Identical(info.TypeOf(sw.Tag), ft) {
+				return true
+			}
+			n++
+			have := map[string]bool{}
+			for _, s := range sw.Body.List {
+				for _, k := range caseConsts(info, s.(*ast.CaseClause)) {
+					have[k.Name()] = true
+				}
+			}
+			var missing []string
+			for w := range want {
+				if !have[w] {
+					missing = append(missing, w)
+				}
+			}
+			sort.Strings(missing)
+			c.Check("binary-point-field-dispatch-exhaustive", f.Name+"/switch", c.P.Pos(sw.Pos()), len(missing) == 0,
+				fmt.Sprintf("fields of type %v are skipped when a binary point is validated / rebuilt: the point arrives without them", missing))
+			// sibling agreement inside the validator: every case can reject (returns a non-nil error under some
+			// condition). A case that accepts every value of its type hands consumers a value they cannot read:
+			// the accessors slice and parse without checks of their own.
+			if f.ErrResultIndex() >= 0 && strings.HasSuffix(f.Name, ".NewPointFromBytes") {
+				for _, s := range sw.Body.List {
+					cc := s.(*ast.CaseClause)
+					names := constNames(caseConsts(info, cc))
+					rejects := false
+					for _, st := range cc.Body {
+						ast.Inspect(st, func(m ast.Node) bool {
+							if rs, ok := m.(*ast.ReturnStmt); ok && len(rs.Results) == 2 && !isNilExpr(info, rs.Results[1]) {
+								rejects = true
+							}
+							return true
+						})
+					}
+					c.Check("binary-point-field-validated", fmt.Sprintf("%s/case-%s", f.Name, strings.Join(names, "+")), c.P.Pos(cc.Pos()), rejects,
+						"the validation of a binary point received from another node accepts every value of this field type: a malformed value (e.g. a string that is only an opening quote) is handed to consumers whose accessors slice it without checks and panic")
+				}
+			}
+			return true
+		})
+	}
+	c.Floor("field type dispatches of the binary point form", n, 2)
 
 }
